@@ -533,19 +533,21 @@ fn main() {
                     // a replay file: exactly the recorded configuration, ops verbatim
                     Some(fl) => {
                         let imp = b.cfg.get("imp").and_then(|v| v.as_str()).unwrap_or("thin");
-                        let mt = b.cfg.get("min_temp").and_then(|v| v.as_u64()).unwrap_or(1) as u32;
+                        let mt = b.cfg.get("min_temp").and_then(|v| v.as_u64()).unwrap_or(16) as u32;
                         run_ops(&mut t, fl, imp, mt, &b.ops);
                     }
                     // a behaviour printed by TLC: the flavour is carried by every op record
                     None => match s(&b.ops[0], "fl") {
-                        "base" => run_ops(&mut t, "base", "thin", 1, &b.ops),
+                        // (min_temp_entry_ttl = 16 = the model's MinTempTtl: an approval entry outlives
+                        // a short explicit expiry, so only the explicit comparison protects)
+                        "base" => run_ops(&mut t, "base", "thin", 16, &b.ops),
                         "enumerable" => {
                             let imp = if has("mint_id") { "thin" } else { "example" };
-                            run_ops(&mut t, "enumerable", imp, 1, &b.ops)
+                            run_ops(&mut t, "enumerable", imp, 16, &b.ops)
                         }
                         "consecutive" => {
-                            run_ops(&mut t, "consecutive", "example", 1, &b.ops);
-                            run_ops(&mut t, "consecutive", "example", 1, &remap(&b.ops));
+                            run_ops(&mut t, "consecutive", "example", 16, &b.ops);
+                            run_ops(&mut t, "consecutive", "example", 16, &remap(&b.ops));
                         }
                         f => panic!("flavour {f}"),
                     },
